@@ -50,6 +50,12 @@ for dst, f in sorted(src.items()):
 
 for f in sorted(glob.glob(os.path.join(VERIF, "engine", "overlay", "sarama", "*.go"))):
     replace[os.path.join(REPO, os.path.basename(f))] = f
+extra = os.environ.get("VERIF_EXTRA_BRIDGE", "")
+if extra:
+    for f in sorted(glob.glob(os.path.join(extra, "*.go"))):
+        replace[os.path.join(REPO, os.path.basename(f))] = f
+    for f in sorted(glob.glob(os.path.join(extra, "mocks", "*.go"))):
+        replace[os.path.join(REPO, "mocks", os.path.basename(f))] = f
 replace[os.path.join(REPO, "internal", "verifsync", "sync.go")] = os.path.join(VERIF, "engine", "overlay", "verifsync", "sync.go")
 for f in sorted(glob.glob(os.path.join(VERIF, "engine", "overlay", "mocks", "*.go"))):
     replace[os.path.join(REPO, "mocks", os.path.basename(f))] = f
